@@ -17,6 +17,8 @@
 (*   req    : sequence of requested names ("afile" = a file named unlike the   *)
 (*            module AA-MIB it holds)                                          *)
 (*   srcA/B : "ok" | "broken" | "missing"   file <module>.txt in the source dir *)
+(*            srcB may also be "packed": there is no BB-MIB.txt, the module    *)
+(*            BB-MIB follows AA-MIB inside AA-MIB.txt (two modules in one file) *)
 (*   src2A  : "ok" | "broken" | "missing"   AA-MIB.txt in the SECOND source dir  *)
 (*   alias  : BOOLEAN                       file afile.txt (module AA-MIB) exists *)
 (*   sub    : BOOLEAN   BB-MIB.txt lies in a sub-directory of the source dir   *)
@@ -72,7 +74,9 @@ OptVal(wd, o) ==
     [] o = "genTexts" -> wd.texts # "no" [] o = "writeMibs" -> ~wd.noWrites [] o = "dryRun" -> wd.dryRun
 
 FileAns(st, m, wd) ==
-  CASE st = "ok" -> Ok(<<Mod(m, ImpOf(wd, m), "ok")>>)
+  CASE st = "ok" /\ m = "AA-MIB" /\ wd.srcB = "packed" ->
+                    Ok(<<Mod("AA-MIB", ImpOf(wd, "AA-MIB"), "ok"), Mod("BB-MIB", ImpOf(wd, "BB-MIB"), "ok")>>)
+    [] st = "ok" -> Ok(<<Mod(m, ImpOf(wd, m), "ok")>>)
     [] st = "broken" -> A("parseerr")
     [] OTHER -> A("nf")
 
@@ -80,7 +84,7 @@ FileAns(st, m, wd) ==
 SrcAnsOf(wd, k, n) ==
   IF k > 1 THEN (IF n \in {"AA-MIB", "Aa-Mib"} THEN FileAns(wd.src2A, "AA-MIB", wd) ELSE A("nf")) ELSE
   CASE n \in {"AA-MIB", "Aa-Mib"} -> FileAns(wd.srcA, "AA-MIB", wd)      \* upper-case matching finds AA-MIB.txt
-    [] n \in {"BB-MIB", "Bb-Mib"} -> FileAns(wd.srcB, "BB-MIB", wd)
+    [] n \in {"BB-MIB", "Bb-Mib"} -> FileAns(IF wd.srcB = "packed" THEN "missing" ELSE wd.srcB, "BB-MIB", wd)
     [] n = "afile"  -> IF wd.alias THEN Ok(<<Mod("AA-MIB", ImpOf(wd, "AA-MIB"), "ok")>>) ELSE A("nf")
     [] OTHER        -> IF wd.base THEN Ok(<<Mod(n, BaseSeq, "ok")>>) ELSE A("nf")
 
